@@ -1,4 +1,4 @@
-// drives the REAL /repo/modules/dagaz primitives (Vector3f.Dot, Cross) and prints oracle lines
+// drives the REAL /repo/modules/dagaz primitives (Vector3f.Dot, Cross, calculateNormal, doHorizontalPlanesOverlap, IntersectQuad) and prints oracle lines
 //   D ax ay az bx by bz r  /  X ax ay az bx by bz rx ry rz   (float32 bit patterns, decimal)
 // usage: c20f [seed] [count]   (built by checks/common.build_harness("c20f") against the tree under test)
 package main
@@ -23,6 +23,33 @@ func emit(v [6]float32) {
 	c := dagaz.Cross(a, b)
 	p := c.ToProtobuf()
 	fmt.Printf("X %d %d %d %d %d %d %d %d %d\n", bits(v[0]), bits(v[1]), bits(v[2]), bits(v[3]), bits(v[4]), bits(v[5]), bits(p.X), bits(p.Y), bits(p.Z))
+}
+
+func v3(x [3]float32) dagaz.Vector3f { return dagaz.NewVector3f(x[0], x[1], x[2]) }
+func b3(v dagaz.Vector3f) [3]uint32 {
+	p := v.ToProtobuf()
+	return [3]uint32{bits(p.X), bits(p.Y), bits(p.Z)}
+}
+func u3(x [3]float32) string { return fmt.Sprintf("%d %d %d", bits(x[0]), bits(x[1]), bits(x[2])) }
+
+// calculateNormal, doHorizontalPlanesOverlap (through the add-only hook) and IntersectQuad of the real code
+func emitGeom(c, e, c2, e2, from, to [3]float32) {
+	n := dagaz.VerifNormal(v3(c), v3(e))
+	nb := b3(n)
+	fmt.Printf("N %s %s %d %d %d\n", u3(c), u3(e), nb[0], nb[1], nb[2])
+	qa := dagaz.Quad{Center: v3(c), Extents: v3(e), Normal: n}
+	qb := dagaz.Quad{Center: v3(c2), Extents: v3(e2)}
+	ov := 0
+	if dagaz.VerifOverlap(qa, qb) {
+		ov = 1
+	}
+	fmt.Printf("O %s %s %s %s %d\n", u3(c), u3(e), u3(c2), u3(e2), ov)
+	hit, t := dagaz.IntersectQuad(dagaz.Ray{From: v3(from), To: v3(to)}, qa)
+	h := 0
+	if hit {
+		h = 1
+	}
+	fmt.Printf("I %s %s %s %s %d %d %d %d %d\n", u3(from), u3(to), u3(c), u3(e), nb[0], nb[1], nb[2], h, bits(t))
 }
 
 func main() {
@@ -69,5 +96,67 @@ func main() {
 			}
 		}
 		emit(v)
+	}
+	// geometry: quads of the property's domain (horizontal, positive extents of every scale, |coordinates| <= 64), quads next
+	// to each other on the float32 lattice, vertical rays through the centre, and arbitrary bit patterns
+	scales := []float64{10, 1, 1e-2, 1e-4, 3e-6, 1e-6, 1e-8, 1e-12, 1e-19, 1e-23, 1e-30, 1e-38, 1e-42, 1.4e-45}
+	coord := func() float32 {
+		switch r.Intn(4) {
+		case 0:
+			return float32(r.Intn(129) - 64)
+		case 1:
+			return float32((r.Float64()*2 - 1) * 0.5)
+		default:
+			return float32((r.Float64()*2 - 1) * 60)
+		}
+	}
+	anyF := func() float32 {
+		switch r.Intn(3) {
+		case 0:
+			return fb(r.Uint32())
+		case 1:
+			return fb(r.Uint32() & 0x807fffff)
+		default:
+			return float32(r.NormFloat64()) * fb(uint32(r.Intn(255))<<23)
+		}
+	}
+	emitGeom([3]float32{60, 0, 60}, [3]float32{1e-6, 0, 1e-6}, [3]float32{59, 0, 59}, [3]float32{1, 0, 1}, [3]float32{60, 1, 60}, [3]float32{60, -1, 60})
+	for i := 0; i < count/4; i++ {
+		var c, e, c2, e2, from, to [3]float32
+		if r.Intn(4) != 0 {
+			ext := func() float32 {
+				v := float32(scales[r.Intn(len(scales))] * (0.5 + r.Float64()))
+				if v <= 0 {
+					v = math.SmallestNonzeroFloat32
+				}
+				return v
+			}
+			c = [3]float32{coord(), float32(r.Intn(5)-2) * 2, coord()}
+			e = [3]float32{ext(), 0, ext()}
+			if r.Intn(5) == 0 {
+				e[1] = float32(math.Copysign(0, -1))
+			}
+			if r.Intn(6) == 0 {
+				e[1] = ext() // slanted
+			}
+			// a neighbour whose edge is at, one ulp below or above, or far from an edge of the first
+			c2, e2 = c, [3]float32{ext(), 0, ext()}
+			edge := c[0] + e[0]
+			c2[0] = math.Nextafter32(edge+e2[0], float32(r.Intn(3)-1)*1000)
+			if r.Intn(3) == 0 {
+				c2[2] = math.Nextafter32(c[2]-e[2]-e2[2], float32(r.Intn(3)-1)*1000)
+			}
+			from = [3]float32{c[0], c[1] + 1, c[2]}
+			to = [3]float32{c[0], c[1] - 1, c[2]}
+			if r.Intn(4) == 0 {
+				from[0] += float32(r.NormFloat64()) * e[0]
+				to[2] += float32(r.NormFloat64()) * e[2]
+			}
+		} else {
+			for k := 0; k < 3; k++ {
+				c[k], e[k], c2[k], e2[k], from[k], to[k] = anyF(), anyF(), anyF(), anyF(), anyF(), anyF()
+			}
+		}
+		emitGeom(c, e, c2, e2, from, to)
 	}
 }
